@@ -115,12 +115,14 @@ def scenarios(rng, root):
     sc.append(('mandoline 2D', mk_m2(False), mk_m2(True)))
 
     pos = pf3.geo_low[2] + 0.5 * (pf3.n0[2] * pf3.dx0[2]) + 0.25 * pf3.dx0[2] / 2 ** (pf3.nlevels - 1)
+    # (a reused object keeps its plane position when none is given: the second slice states its own)
+    pos_y = pf3.geo_low[1] + 0.5 * (pf3.n0[1] * pf3.dx0[1]) + 0.25 * pf3.dx0[1] / 2 ** (pf3.nlevels - 1)
 
     def mk_m3(serial):
         def run(outdir):
             from amr_kitchen.mandoline import Mandoline
             m = Mandoline(p3, fields=[keys3[1], 'grid_level'], serial=serial, verbose=0)
-            return [m.slice(normal=2, pos=pos, fformat='return'), m.slice(normal=1, pos=None, fformat='return')]
+            return [m.slice(normal=2, pos=pos, fformat='return'), m.slice(normal=1, pos=pos_y, fformat='return')]
         return run
     sc.append(('mandoline 3D slice', mk_m3(False), mk_m3(True)))
 
